@@ -16,11 +16,13 @@ def spd(B, lam):
 
 
 def problem(case):
-    d = case["d"]
+    d = case["d"] if case["family"] != "two_site" else 2
     m0 = np.asarray(case["m0"][:d], dtype=np.float32).astype(np.float64)
     S0 = spd(np.asarray(case["B0"])[:d, :d], case["lam0"]).astype(np.float32).astype(np.float64)
     R = spd(np.asarray(case["BR"])[:d, :d], case["lamR"]).astype(np.float32).astype(np.float64)
     y = np.asarray(case["y"][:d], dtype=np.float32).astype(np.float64)
+    if case["family"] == "two_site":  # two independent scalar latent/observation pairs
+        S0, R = np.diag(np.diag(S0)), np.diag(np.diag(R))
     P = np.linalg.inv(np.linalg.inv(S0) + np.linalg.inv(R))
     m = P @ (np.linalg.inv(S0) @ m0 + np.linalg.inv(R) @ y)
     from scipy import stats as ss
@@ -41,7 +43,7 @@ def elbo_exact(mu, Sig, m0, S0, R, y):
 def q_of(case, params_flat):
     """(mu, Sigma) of the variational family for a flat parameter vector"""
     d = case["d"]
-    if case["family"] == "mean_field":
+    if case["family"] in ("mean_field", "two_site"):
         mu, ls = params_flat[:d], params_flat[d:]
         return np.asarray(mu), np.diag(np.exp(2 * np.asarray(ls)))
     mu = np.asarray(params_flat[:d])
@@ -54,13 +56,13 @@ def to_params(case, flat):
 
     d = case["d"]
     flat = np.asarray(flat, dtype=np.float32)
-    if case["family"] == "mean_field":
+    if case["family"] in ("mean_field", "two_site"):
         return jnp.asarray(flat)
     return {"mean": jnp.asarray(flat[:d]), "chol_cov": jnp.asarray(flat[d:].reshape(d, d))}
 
 
 def flat_of(case, tree):
-    if case["family"] == "mean_field":
+    if case["family"] in ("mean_field", "two_site"):
         return np.asarray(tree, dtype=np.float64)
     return np.concatenate([np.asarray(tree["mean"], dtype=np.float64).ravel(), np.asarray(tree["chol_cov"], dtype=np.float64).ravel()])
 
@@ -78,6 +80,28 @@ def build(case):
         multivariate_normal(x, jnp.asarray(R, dtype=jnp.float32)) @ "y"
         return x
 
+    if case["family"] == "two_site":
+        from genjax import normal
+        from genjax.adev import normal_reinforce, normal_reparam
+
+        est = {"reparam": normal_reparam, "reinforce": normal_reinforce}
+        e1, e2 = case["estimator"].split("+")
+
+        @gen
+        def target2():
+            a = normal(float(m0[0]), float(np.sqrt(S0[0, 0]))) @ "a"
+            b = normal(float(m0[1]), float(np.sqrt(S0[1, 1]))) @ "b"
+            normal(a, float(np.sqrt(R[0, 0]))) @ "ya"
+            normal(b, float(np.sqrt(R[1, 1]))) @ "yb"
+            return a + b
+
+        @gen
+        def fam2(constraint, params):
+            est[e1](params[0], jnp.exp(params[2])) @ "a"
+            est[e2](params[1], jnp.exp(params[3])) @ "b"
+
+        cons2 = {"ya": jnp.asarray(np.float32(y[0])), "yb": jnp.asarray(np.float32(y[1]))}
+        return target2, fam2, cons2, elbo_factory(target2, fam2, cons2, ())
     fam = (mean_field_normal_family if case["family"] == "mean_field" else full_covariance_normal_family)(d, case["estimator"])
     cons = {"y": jnp.asarray(y, dtype=jnp.float32)}
     return target, fam, cons, elbo_factory(target, fam, cons, ())
@@ -91,6 +115,7 @@ def classify(case, ctx=None, n1=4000):
 
     d, m0, S0, R, y, m, P, logZ = problem(case)
     C = f"{case['family']}:{case['estimator']}:d{d}"
+    mf = case["family"] in ("mean_field", "two_site")
     fails, info = [], {"log_evidence": logZ}
     c = ctx if ctx is not None else type("C", (), {"stat_tests": 0, "stat_stage2": 0})()
     try:
@@ -109,7 +134,7 @@ def classify(case, ctx=None, n1=4000):
                     break
             info["posterior_checked"] = True
         # 2./3. unbiased value and gradient at a generic q
-        flat = np.asarray(case["params"][: (2 * d if case["family"] == "mean_field" else d + d * d)], dtype=np.float32).astype(np.float64)
+        flat = np.asarray(case["params"][: (2 * d if mf else d + d * d)], dtype=np.float32).astype(np.float64)
         if case["family"] == "full_cov":
             L = np.tril(flat[d:].reshape(d, d)) + np.diag([0.6] * d)
             flat = np.concatenate([flat[:d], L.ravel()])
@@ -142,7 +167,7 @@ def classify(case, ctx=None, n1=4000):
         def draw(n, stage):
             if stage not in cache:
                 v, g = impl(bs, jax.random.split(env.key(case["key"], 10 + stage), n))
-                gf = np.stack([flat_of(case, jax.tree_util.tree_map(lambda x: x[i], g)) for i in range(n)]) if case["family"] != "mean_field" else np.asarray(g, dtype=np.float64)
+                gf = np.stack([flat_of(case, jax.tree_util.tree_map(lambda x: x[i], g)) for i in range(n)]) if not mf else np.asarray(g, dtype=np.float64)
                 cache[stage] = (np.asarray(v, dtype=np.float64), gf)
             return cache[stage]
 
@@ -158,7 +183,7 @@ def classify(case, ctx=None, n1=4000):
 
         def pg(n, stage):
             _, g = draw(n, stage)
-            ps = [(stats.block_mean_t_p(g[:, i], G[i])[0], i) for i in range(g.shape[1]) if case["family"] == "mean_field" or _is_free(case, i)]
+            ps = [(stats.block_mean_t_p(g[:, i], G[i])[0], i) for i in range(g.shape[1])]
             p, i = min(ps)
             return min(1.0, p * len(ps)), {"component": int(i), "mean": float(g[:, i].mean()), "ref": float(G[i])}
 
@@ -166,7 +191,7 @@ def classify(case, ctx=None, n1=4000):
         if res:
             fails.append((f"elbo_grad_biased:{C}", f"mean of elbo.grad_estimate differs from the gradient of the analytic ELBO: {res}"))
         # 4. optimisation with a stochastic ELBO: structure, and E[first iterate] = theta + lr * grad
-        if not fails and case["family"] == "mean_field":
+        if not fails and mf:
             lr, nit = case["lr"], case["n_iter"]
             va = impl(seed(lambda p: elbo_vi(target, fam, p, cons, (), lr, nit)), env.key(case["key"], 3), pj)
             ph = np.asarray(va.param_history)
@@ -262,7 +287,8 @@ def cases():
     mat = st.lists(st.lists(f(-0.8, 0.8), min_size=3, max_size=3), min_size=3, max_size=3)
     conj = st.fixed_dictionaries({"kind": st.just("conjugate"), "d": st.integers(1, 3), "m0": st.lists(f(-1, 1), min_size=3, max_size=3), "B0": mat, "lam0": st.sampled_from([0.5, 1.0]),
                                   "BR": mat, "lamR": st.sampled_from([0.3, 0.8]), "y": st.lists(f(-1.5, 1.5), min_size=3, max_size=3),
-                                  "family": st.sampled_from(["mean_field", "mean_field", "full_cov"]), "estimator": st.sampled_from(["reparam", "reinforce"]),
+                                  "family": st.sampled_from(["mean_field", "mean_field", "full_cov", "two_site"]), "estimator": st.sampled_from(["reparam", "reinforce"]),
+                                  "pair": st.sampled_from(["reinforce+reinforce", "reparam+reinforce", "reinforce+reparam"]),
                                   "params": st.lists(f(-0.6, 0.6), min_size=12, max_size=12), "lr": st.sampled_from([0.01, 0.05]), "n_iter": st.integers(2, 6), "key": st.integers(0, 2**30)})
     rec = st.fixed_dictionaries({"kind": st.just("recursion"), "objective": st.sampled_from(["quadratic", "enum"]), "a": st.lists(f(-1, 1), min_size=2, max_size=2),
                                  "theta0": st.lists(f(-1, 1), min_size=2, max_size=2), "lr": st.sampled_from([0.01, 0.1, 0.3]), "n_iter": st.integers(1, 20), "key": st.integers(0, 2**30)})
@@ -272,6 +298,8 @@ def cases():
 def one_case(ctx, case):
     P = plan(ctx)
     env.reset()
+    if case["kind"] == "conjugate" and case["family"] == "two_site" and "+" not in case["estimator"]:
+        case = {**case, "estimator": case.get("pair", "reinforce+reinforce"), "d": 2}
     if case["kind"] == "conjugate":
         fails, info = classify(case, ctx, P["n1"])
         cls = [f"C17.family_{case['family']}", f"C17.estimator_{case['estimator']}", f"C17.d{case['d']}"] + (["C17.posterior_tightness_checked"] if info.get("posterior_checked") else [])
@@ -291,4 +319,6 @@ def run_shard(ctx):
 
 
 def replay(case):
+    if case["kind"] == "conjugate" and case["family"] == "two_site" and "+" not in case["estimator"]:
+        case = {**case, "estimator": case.get("pair", "reinforce+reinforce"), "d": 2}
     return (classify(case, None, 4000) if case["kind"] == "conjugate" else classify_exact_recursion(case))[0]
